@@ -316,7 +316,22 @@ impl Gen {
     }
 
     pub fn row_for(&mut self, cols: &[ColDef], page: i32) -> Vec<V> {
-        cols.iter().map(|c| self.value_for(c, page)).collect()
+        let mut row: Vec<V> = Vec::with_capacity(cols.len());
+        for c in cols {
+            // now and then the same string appears in two cells of one row
+            if c.ty.is_str() && self.rng.chance(1, 8) {
+                let prev: Vec<V> = row.iter().filter(|v| matches!(v, V::Str(s) if !s.is_empty())).cloned().collect();
+                if let Some(p) = prev.last() {
+                    if ref_valid(c, p) == Verdict::Valid {
+                        row.push(p.clone());
+                        continue;
+                    }
+                }
+            }
+            let v = self.value_for(c, page);
+            row.push(v);
+        }
+        row
     }
 
     /// A row whose key does not collide with existing rows or `pending`.
@@ -504,7 +519,14 @@ impl Gen {
         let user_tables: Vec<String> = model.tables.keys().cloned().collect();
         let invalid = self.rng.chance(self.cfg.invalid_pct, 100);
         if user_tables.is_empty() || (user_tables.len() < self.cfg.max_tables && self.rng.chance(self.cfg.ddl_pct, 100)) {
-            return Op::CreateTable { name: self.table_name(), cols: self.schema() };
+            let name = self.table_name();
+            let mut cols = self.schema();
+            // now and then a column carries the table's own name (one string, two catalog cells in one row)
+            if self.rng.chance(1, 8) && name.chars().count() <= 32 {
+                let i = self.rng.usize(cols.len());
+                cols[i].name = name.clone();
+            }
+            return Op::CreateTable { name, cols };
         }
         let table = self.rng.pick(&user_tables).clone();
         let r = self.rng.below(100);
@@ -576,7 +598,10 @@ impl Gen {
                 let non_key: Vec<usize> = (0..t.cols.len()).filter(|i| !t.cols[*i].key).collect();
                 let key: Vec<usize> = t.key_idx();
                 let use_key = self.cfg.key_updates && (non_key.is_empty() || self.rng.chance(self.cfg.key_update_pct, 100));
-                let pool = if use_key { &key } else { &non_key };
+                let all: Vec<usize> = (0..t.cols.len()).collect();
+                // one update in six assigns key and non-key columns together
+                let mixed = self.cfg.key_updates && !non_key.is_empty() && self.rng.chance(1, 6);
+                let pool = if mixed { &all } else if use_key { &key } else { &non_key };
                 if pool.is_empty() {
                     return Op::Delete { table: table.clone(), cond: self.condition(model, &table) };
                 }
